@@ -82,11 +82,11 @@ class Ctx:
         if f.key not in {x.key for x in self.findings}:
             self.findings.append(f)
 
-    def check(self, cond, rule, fi, node, ok_fact, fail_msg, extra=None):
+    def check(self, cond, rule, fi, node, ok_fact, fail_msg, extra=None, stmt_text=None):
         if cond:
             self.ok(rule, fi, ok_fact, node)
         else:
-            self.fail(rule, fi, node, fail_msg, extra)
+            self.fail(rule, fi, node, fail_msg, extra, stmt_text)
         return bool(cond)
 
     def note(self, rule, text):
